@@ -12,6 +12,9 @@ import PromModel.Tsdb.HeadChunkFile
        `fin` worker finishes the job (callback, delete from chunkRefMap, pop next) · `drain` ·
        `trunc <n>` · `files` · `st` (internal positions) · `restart` (Close, reopen, load as the head does) ·
        `torn <cut>` (copy of the directory as it is on disk now, newest file truncated at cut, reopen + load) ·
+       `crash <seq> <t|x|z> <arg>` (drain, Close, damage file <seq> of the LIVE directory — t: truncate at arg,
+                            x: invert the byte at arg, z: zero everything from arg on —, reopen, load as the head does
+                            (IterateAllChunks → DeleteCorrupted → IterateAllChunks) and keep working on that mapper) ·
        `pos <seq> <off> <cut> <len>` chunkPos.getNextChunkRef on an explicit position
   out  see `run`.
 -/
@@ -66,6 +69,7 @@ inductive Op
   | trunc (n : Nat)
   | files | st | restart
   | torn (cut : Nat)
+  | crash (seq : Nat) (d : Dmg)
   | pos (seq off : Nat) (cut : Bool) (n : Nat)
   | bad
 deriving Repr, Inhabited
@@ -94,6 +98,11 @@ def parseOp (line : String) : Op :=
   | ["st"] => .st
   | ["restart"] => .restart
   | ["torn", c] => match c.toNat? with | some c => .torn c | none => .bad
+  | ["crash", s, kd, a] =>
+    match s.toNat?, a.toNat? with
+    | some s, some a =>
+      if kd = "t" then .crash s (.cut a) else if kd = "x" then .crash s (.flip a) else if kd = "z" then .crash s (.zero a) else .bad
+    | _, _ => .bad
   | ["pos", a, b, c, d] =>
     match a.toNat?, b.toNat?, bool01? c, d.toNat? with
     | some a, some b, some c, some d => if a < 2147483648 ∧ b < 1099511627776 ∧ d ≤ 268435456 then .pos a b c d else .bad
@@ -206,6 +215,18 @@ def stepW (w : World) (op : Op) : World × String :=
         match reopen 0 wbsDefault (tearLast (σ.diskFiles crc) cut) with
         | none => (w, "torn openerr -")
         | some σ2 => (w, "torn " ++ (loadStr σ2).2)
+      | .crash s dm =>
+        let dr := σ.drain σ.drainFuel
+        let σ1 := dr.1
+        let parts := dr.2.map fun x => s!"{refStr x.1}={cbStr x.2}"
+        let d := if parts.isEmpty then "-" else ",".intercalate parts
+        let files := σ1.closedFiles crc
+        let seqs := seqList (files.map (·.1))
+        match reopen (modelQ w) wbsDefault (damageFile files s dm) with
+        | none => ({ w with st := none, dead := true }, s!"crash {seqs} openerr - {d}")
+        | some σ2 =>
+          let r := loadStr σ2
+          ({ w with st := some r.1, poisoned := false, issued := [] }, s!"crash {seqs} {r.2} {d}")
       | _ => (w, "bad-op")
 
 def runOps (w : World) : List Op → List String
@@ -239,6 +260,8 @@ structure JWrite where
   ref : Ref
   c : Chunk
   truncated : Bool := false
+  /-- some `trunc` was requested after this write was handed to `WriteChunk` (the window of finding C25-F1) -/
+  truncSince : Bool := false
 deriving Inhabited
 
 def expectStr (c : Chunk) : String := chunkStr c.enc c.data
@@ -295,6 +318,35 @@ def checkListed (tag : String) (strictAll : Bool) : List JEntry → List JWrite 
 
 def isErrCb (s : String) : Bool := s ≠ "ok" ∧ s ≠ "-"
 
+/-- A write callback reported an error.  The only admissible (known, C25-F1) mechanism needs a `Truncate` between
+    `WriteChunk` and the worker step; an error without one is named apart. -/
+def cbViolation (ws : List JWrite) (k : Nat) (r cls : String) : String :=
+  let tr : Bool := match parseRef? r with
+    | some ref => (match ws.find? (·.ref = ref) with | some w => w.truncSince | none => false)
+    | none => false
+  s!"violation callback-error op={k} ref={r} class={cls}" ++ (if tr then "" else " no-trunc-since-issue")
+
+/-- `crash`: file `s` of the live directory was damaged.  Listed entries are written chunks in write order with exact
+    metadata and bytes (never invented); every not truncated chunk of a file older than `s` is listed; when `s` is the
+    newest file (the only file a real crash tears) the survivors are prefix-closed. -/
+def checkCrash (s : Nat) (isLast : Bool) : List JEntry → List JWrite → Option String
+  | [], ws =>
+    match ws.find? (fun w => !w.truncated ∧ w.ref.1 < s) with
+    | some w => some s!"crash-lost-older ref={refStr w.ref} damaged={s}"
+    | none => none
+  | e :: _, [] => some s!"crash-invented ref={refStr e.ref}"
+  | e :: es, w :: ws =>
+    if e.ref = w.ref then
+      if entryMatches e w then checkCrash s isLast es ws
+      else some s!"crash-invented ref={refStr e.ref} metadata-or-bytes-differ"
+    else if !ws.any (fun w' => w'.ref = e.ref) then some s!"crash-invented ref={refStr e.ref}"
+    else if !w.truncated ∧ w.ref.1 < s then some s!"crash-lost-older ref={refStr w.ref} damaged={s}"
+    else if !w.truncated ∧ isLast then some s!"crash-not-prefix missing={refStr w.ref} listed={refStr e.ref}"
+    else checkCrash s isLast (e :: es) ws
+
+def Dmg.pos : Dmg → Nat
+  | .cut n => n | .flip o => o | .zero o => o
+
 def verdict (ws : List JWrite) (k : Nat) : List Op → List String → Option String
   | op :: ops, out :: outs =>
     let t := toks out
@@ -311,10 +363,10 @@ def verdict (ws : List JWrite) (k : Nat) : List Op → List String → Option St
         | some ref =>
           let rdv := (rd.drop 3).copy
           let cbv := (cb.drop 3).copy
-          if isErrCb cbv then some s!"violation callback-error op={k} ref={r} class={cbv}"
+          if isErrCb cbv then some (cbViolation ws k r cbv)
           else if rdv ≠ "unsafe" ∧ (rdv.splitOn "|").any (· ≠ expectStr c) then
             some s!"violation read-your-writes op={k} ref={r} immediate got={rdv} want={expectStr c}"
-          else verdict (ws.filter (·.ref ≠ ref) ++ [⟨ref, c, false⟩]) (k + 1) ops outs
+          else verdict (ws.filter (·.ref ≠ ref) ++ [⟨ref, c, false, false⟩]) (k + 1) ops outs
       | _ => some s!"violation unparsable op={k}"
     | .r ref =>
       match ws.find? (·.ref = ref) with
@@ -324,13 +376,13 @@ def verdict (ws : List JWrite) (k : Nat) : List Op → List String → Option St
         else some s!"violation read-your-writes op={k} ref={refStr ref} got={out} want={expectStr w.c}"
     | .wr =>
       match t with
-      | ["wrote", r, cls] => if cls = "ok" then verdict ws (k + 1) ops outs else some s!"violation callback-error op={k} ref={r} class={cls}"
+      | ["wrote", r, cls] => if cls = "ok" then verdict ws (k + 1) ops outs else some (cbViolation ws k r cls)
       | _ => verdict ws (k + 1) ops outs
     | .drain =>
       match t with
       | ["drained", l] =>
         match (l.splitOn ",").find? (fun p => p ≠ "-" ∧ !p.endsWith "=ok") with
-        | some p => some s!"violation callback-error op={k} ref={(p.splitOn "=").headD ""} class={(p.splitOn "=").getLastD ""}"
+        | some p => some (cbViolation ws k ((p.splitOn "=").headD "") ((p.splitOn "=").getLastD ""))
         | none => verdict ws (k + 1) ops outs
       | _ => some s!"violation unparsable op={k}"
     | .trunc n =>
@@ -343,14 +395,14 @@ def verdict (ws : List JWrite) (k : Nat) : List Op → List String → Option St
           else
             match (b.filter (fun x => !a.contains x)).find? (fun x => x ≥ n) with
             | some x => some s!"violation trunc-removed-newer op={k} n={n} file={x}"
-            | none => verdict (ws.map fun w => if w.ref.1 < n then { w with truncated := true } else w) (k + 1) ops outs
+            | none => verdict (ws.map fun w => if w.ref.1 < n then { w with truncated := true, truncSince := true } else { w with truncSince := true }) (k + 1) ops outs
         | _, _ => some s!"violation unparsable op={k}"
       | _ => some s!"violation unparsable op={k}"
     | .restart =>
       match t with
       | ["chunks", st, l, d] =>
         if let some p := (d.splitOn ",").find? (fun p => p ≠ "-" ∧ !p.endsWith "=ok") then
-          some s!"violation callback-error op={k} ref={(p.splitOn "=").headD ""} class={(p.splitOn "=").getLastD ""}"
+          some (cbViolation ws k ((p.splitOn "=").headD "") ((p.splitOn "=").getLastD ""))
         else if st ≠ "clean" then some s!"violation restart-{st} op={k}"
         else
           match parseEntries? l with
@@ -373,6 +425,38 @@ def verdict (ws : List JWrite) (k : Nat) : List Op → List String → Option St
             match checkListed "torn" false es ws with
             | some d => some s!"violation {d} op={k} cut={cut}"
             | none => verdict ws (k + 1) ops outs
+      | _ => some s!"violation unparsable op={k}"
+    | .crash s dm =>
+      match t with
+      | ["crash", fl, st, l, d] =>
+        if let some p := (d.splitOn ",").find? (fun p => p ≠ "-" ∧ !p.endsWith "=ok") then
+          some (cbViolation ws k ((p.splitOn "=").headD "") ((p.splitOn "=").getLastD ""))
+        else
+        match parseSeqs? fl with
+        | none => some s!"violation unparsable op={k}"
+        | some seqs =>
+          let isLast := seqs.getLast? == some s
+          let tornAway := isLast && (match dm with | .cut n => decide (n < 4) | _ => false)
+          if !seqs.contains s then
+            -- nothing was damaged: a plain restart
+            (if st ≠ "clean" then some s!"violation restart-{st} op={k}"
+             else match parseEntries? l with
+              | none => some s!"violation unparsable op={k}"
+              | some es =>
+                match checkListed "iterate" true es ws with
+                | some d => some s!"violation {d} op={k}"
+                | none => verdict ws (k + 1) ops outs)
+          else if st = "openerr" then
+            -- the mapper refuses to open only when the damage is inside the 8-byte header; the case ends there
+            (if dm.pos < 8 ∧ !tornAway then none else some s!"violation crash-openerr op={k} file={s} at={dm.pos}")
+          else if st.startsWith "failed" then some s!"violation crash-{st} op={k} file={s} at={dm.pos}"
+          else
+            match parseEntries? l with
+            | none => some s!"violation unparsable op={k}"
+            | some es =>
+              match checkCrash s isLast es ws with
+              | some d => some s!"violation {d} op={k} at={dm.pos}"
+              | none => verdict (ws.filter fun w => es.any (·.ref = w.ref)) (k + 1) ops outs
       | _ => some s!"violation unparsable op={k}"
     | .bad => none
     | _ =>
